@@ -8,7 +8,9 @@ elements).
   Template table (lemmas generated from the template files on every run): every `{{ expression }}` of the manifest,
         patch, DRM, event and segment-list templates either passes through a filter that produces XML-safe text, or is an
         integer / a server-generated token over a safe alphabet / an XML fragment the server serialises itself
-        (contracts/xml_scan.py lists them).  Autoescape is off for these templates, so a missing filter is an injection.
+        (contracts/xml_scan.py lists them).  Autoescape is off for the .mpd manifests, so a missing filter there is an injection; the
+        .xml fragments are auto-escaped by Flask, where xmlSafe must return Markup not to be escaped twice (clause
+        marked_as_markup_unless_empty; C09 PatchLocation and C11 licence URL depend on it).
 The structural MPD rules of the statement (required attributes, unique ids, lexical forms) are NOT covered."""
 import z3
 from pyvc.vals import *          # noqa: F401,F403
@@ -21,11 +23,19 @@ CASES = [('amp', '&', '&amp;'), ('lt', '<', '&lt;'), ('gt', '>', '&gt;'), ('quot
          ('number', 7, '7')]
 
 
+class MarkupStr(str):
+    """markupsafe.Markup: a str (same characters) that Jinja's autoescape leaves alone"""
+
+
 def xmlsafe(name, value, expected):
     return Contract(
-        key=f'{TAGS}:xmlSafe', variant=name, props=['C05'],
+        key=f'{TAGS}:xmlSafe', variant=name, props=['C05', 'C09', 'C11'],
         env=lambda w: {'value': value},
-        ensures=[('escaped', f'result == {expected!r}')],
+        models={'Markup': lambda eng, e, a, kw: MarkupStr(a[0])},
+        ensures=[('escaped', f'result == {expected!r}'),
+                 # Flask auto-escapes templates named *.xml (patches, DRM, events, WRMHEADER): only text marked as markup is
+                 # not escaped a second time there (C09: PatchLocation; C11: the licence URL read back from a WRMHEADER)
+                 ('marked_as_markup_unless_empty', f'is_markup(result) or result == {""!r}')],
         canaries=[f'result == {"x" + expected!r}'],
         witness_terms=lambda w: (lambda ev: {}),
     )
@@ -34,7 +44,7 @@ def xmlsafe(name, value, expected):
 XMLSAFE = [xmlsafe(*c) for c in CASES]
 
 
-KNOWN = {('templates/drm/custom_attributes.xml', 'elt.tag')}        # known finding C05-custom-attribute-tag
+KNOWN = {('templates/drm/custom_attributes.xml', 'ELEMENT-NAME:elt.tag')}        # known finding C05-custom-attribute-tag
 
 
 def template_lemmas():
@@ -47,7 +57,7 @@ def template_lemmas():
     for f in files:
         def build(w, f=f):
             bad = [(line, e) for ff, line, e in interpolations(w.get('__repo__', '/repo'))
-                   if ff == f and classify(e) is None and (ff, e) not in KNOWN]
+                   if ff == f and classify(e, ff) is None and (ff, e) not in KNOWN]
             return [], z3.BoolVal(not bad)
         out.append(Lemma('escaped.' + f.split('/', 1)[1].replace('/', '.'), ['C05'], build))
     return out
@@ -56,18 +66,19 @@ def template_lemmas():
 def lemma_no_unclassified(w):
     """every interpolation present in the checked tree is acceptable (catches NEW unescaped interpolations)"""
     repo = w.get('__repo__', '/repo')
-    bad = [(f, line, e) for f, line, e in interpolations(repo) if classify(e) is None and (f, e) not in KNOWN]
+    bad = [(f, line, e) for f, line, e in interpolations(repo) if classify(e, f) is None and (f, e) not in KNOWN]
     return [], z3.BoolVal(not bad)
 
 
 GROUP = Group(
-    name='xml', world=lambda: {'__bases__': {}},
+    name='xml', world=lambda: {'__bases__': {}, 'is_markup': lambda x: isinstance(x, MarkupStr)},
     contracts=XMLSAFE,
     lemmas=template_lemmas() + [Lemma('templates.every_interpolation_is_escaped_or_safe', ['C05'], lemma_no_unclassified)],
     assumptions=[
         'C05: str.replace(p, r) with a one-character pattern p maps every character c of the text to r if c == p and to c '
         'otherwise, in order (Python semantics): escaping a text is escaping each of its characters',
-        'C05: Jinja renders `{{ e | f }}` as f(e) and inserts it verbatim (autoescape off for .mpd / .xml templates); the filters '
+        'C05: Jinja renders `{{ e | f }}` as f(e) and inserts it verbatim in .mpd templates; templates named *.xml are auto-escaped '
+        '(flask select_jinja_autoescape: & < > " \' escaped by markupsafe unless the value is Markup); the filters '
         'isoDuration / isoDateTime / base64 / uuid / frameRateFraction / trueFalse produce text over [A-Za-z0-9+/=.:-]',
         'C05: the expressions listed as NUMERIC / FIXED in contracts/xml_scan.py hold integers resp. server-generated tokens over a '
         'safe alphabet (read from the code, not proved)',
